@@ -11,6 +11,7 @@ Context {T : Type} {N : Num T}.
 Hypothesis Rth : ring_theory nzero none_ nadd nmul nsub nopp (@eq T).
 Hypothesis Hdiv : forall u c : T, u / c = (none_ / c) * u.
 Hypothesis Heqb : forall a b : T, (a =? b) = true -> a = b.
+Hypothesis Heqb_refl : forall a : T, (a =? a) = true.
 Add Ring Tring2 : Rth.
 Notation vec := (list T).
 Notation oexpr := (oexpr T).
@@ -23,13 +24,15 @@ Definition additive (f : vec -> vec) (n : nat) : Prop :=
   forall x y, length x = n -> length y = n -> f (vadd x y) = vadd (f x) (f y).
 
 (* What is assumed of a leaf: its domain is a vector space F^n, it maps F^n into its declared
-   range, a Functional has the field as range, and -- the premise that licenses the
-   `A * a -> a * A` rewrite -- a leaf flagged linear is homogeneous. *)
+   range, a Functional has the field as range, and a leaf FLAGGED linear IS linear:
+   homogeneous (the premise that licenses the `A * a -> a * A` rewrite; the value theorems
+   use nothing else) and additive (used only by the flag-soundness theorem). *)
 Record leaf_ok (l : leaf) : Prop := {
   lk_dom : exists n, l_dom l = SV n;
   lk_len : forall x, length x = dim (l_dom l) -> length (l_fun l x) = dim (l_ran l);
   lk_func : l_func l = true -> l_ran l = SF;
-  lk_hom : l_lin l = true -> homog (l_fun l) (dim (l_dom l)) }.
+  lk_hom : l_lin l = true -> homog (l_fun l) (dim (l_dom l));
+  lk_add : l_lin l = true -> additive (l_fun l) (dim (l_dom l)) }.
 
 Fixpoint wf (o : oexpr) : Prop :=
   match o with
@@ -140,6 +143,36 @@ Proof.
   - destruct W as (Wa & Er). rewrite (IHa Wa L k x Hx).
     rewrite (eval_SF_singleton a x Wa Er Hx). cbn [vscal map scalar_of hd].
     rewrite <- (vscal_vscal Rth). reflexivity.
+Qed.
+
+(* ---- ... and additive ---- *)
+Lemma vadd_len (x y : vec) n : length x = n -> length y = n -> length (vadd x y) = n.
+Proof. intros Hx Hy. unfold vadd. rewrite vmap2_length, Hx, Hy. apply Nat.min_id. Qed.
+
+Lemma olin_add o : wf o -> olin o = true -> additive (eval o) (dim (odom o)).
+Proof.
+  induction o as [l|d c|d|fn a IHa b IHb|a IHa c|a IHa v|fn a IHa b IHb|fn a IHa c|fn a IHa c
+                 |a IHa v|fn a IHa v|a IHa v|a IHa b IHb]; cbn [wf odom olin eval]; intros W L x y Hx Hy;
+    try discriminate.
+  - apply (lk_add _ W L x y Hx Hy).
+  - apply Heqb in L; subst c. cbn. f_equal. ring.
+  - cbn. f_equal. ring.
+  - destruct W as (Wa & Wb & Er & Ed & _). apply andb_true_iff in L as [La Lb].
+    rewrite (IHa Wa La x y Hx Hy), (IHb Wb Lb x y) by congruence. apply (vadd_interchange Rth).
+  - destruct W as (Wa & Fa). apply andb_true_iff in L as [La Lc]. apply Heqb in Lc; subst c.
+    rewrite (IHa Wa La x y Hx Hy).
+    rewrite (eval_func_singleton a x Wa Fa Hx), (eval_func_singleton a y Wa Fa Hy). cbn. f_equal. ring.
+  - destruct W as (Wa & Wb & Er & _). apply andb_true_iff in L as [La Lb].
+    rewrite (IHb Wb Lb x y Hx Hy). apply (IHa Wa La); rewrite (eval_length _ Wb) by assumption; congruence.
+  - destruct W as (Wa & _). rewrite (IHa Wa L x y Hx Hy). apply (vscal_vadd Rth).
+  - destruct W as (Wa & _). rewrite (vscal_vadd Rth). apply (IHa Wa L); rewrite vscal_length; assumption.
+  - destruct W as (Wa & _). rewrite (IHa Wa L x y Hx Hy). apply (vmul_vadd_l Rth).
+  - destruct fn; [discriminate|]. destruct W as (Wa & Ed & _).
+    rewrite (vmul_vadd_l Rth).
+    apply (IHa Wa L); unfold vmul; rewrite vmap2_length, ?Hx, ?Hy, Ed; cbn [dim]; apply Nat.min_id.
+  - destruct W as (Wa & Er). rewrite (IHa Wa L x y Hx Hy).
+    rewrite (eval_SF_singleton a x Wa Er Hx), (eval_SF_singleton a y Wa Er Hy).
+    cbn [vadd vmap2 scalar_of hd]. apply (vscal_add_l Rth).
 Qed.
 
 (* ------------------------------------------------------------------ *)
@@ -528,6 +561,120 @@ Proof.
 Qed.
 
 (* ------------------------------------------------------------------ *)
+(* FLAGS.  (1) soundness: an object flagged linear denotes a linear map. *)
+Theorem flag_sound : forall s o, sleaves_ok s -> build s = Ok o -> olin o = true ->
+  homog (denote s) (dim (sdom s)) /\ additive (denote s) (dim (sdom s)).
+Proof.
+  intros s o L E Lin. destruct (build_sem s o L E) as (W & D & R & Ev). split.
+  - intros c x Hx. rewrite <- !Ev by (rewrite ?vscal_length; assumption).
+    apply (olin_hom o W Lin). congruence.
+  - intros x y Hx Hy. rewrite <- !Ev by (try apply vadd_len; assumption).
+    apply (olin_add o W Lin); congruence.
+Qed.
+
+(* (2) completeness w.r.t. the linearity implied by the expression [slin]. *)
+Lemma mkLScal_lin fn a c o : mkLScal fn a c = Ok o -> olin o = olin a.
+Proof. intros E. destruct (mkLScal_cases _ _ _ _ E) as [(f' & a' & c' & -> & ->)| ->]; reflexivity. Qed.
+Lemma mkRScal_lin fn a c o : mkRScal fn a c = Ok o -> olin o = olin a.
+Proof. intros E. destruct (mkRScal_cases _ _ _ _ E) as [(f' & a' & c' & -> & ->)| ->]; reflexivity. Qed.
+
+Lemma rmul_c_lin a c o : rmul_c a c = Ok o -> olin a = true -> olin o = true.
+Proof.
+  unfold rmul_c, mkFLScal. intros E La. destruct (ofunc a).
+  - destruct (c =? nzero); [inversion E; reflexivity|]. rewrite (mkLScal_lin _ _ _ _ E). assumption.
+  - rewrite (mkLScal_lin _ _ _ _ E). assumption.
+Qed.
+
+Lemma mul_c_lin a c o : wf a -> mul_c a c = Ok o -> olin a = true -> olin o = true.
+Proof.
+  unfold mul_c, mkFLScal, mkFRScal. intros W E La. rewrite La in E. destruct (ofunc a) eqn:F.
+  - destruct (c =? nzero).
+    + inversion E; subst o. cbn [olin].
+      destruct (dom_sv a W) as [n Dn].
+      assert (Hz : eval a (vzero (dim (odom a))) = vscal nzero (eval a (vzero (dim (odom a))))).
+      { rewrite <- (olin_hom a W La nzero) by apply repeat_length.
+        rewrite (vscal_zero Rth). unfold vzero. rewrite repeat_length. reflexivity. }
+      rewrite (eval_func_singleton a (vzero (dim (odom a))) W F (repeat_length _ _)) in Hz.
+      cbn [vscal map] in Hz.
+      inversion Hz as [Hz']. rewrite Hz'. replace (nzero * _) with (@nzero T N) by ring. apply Heqb_refl.
+    + rewrite (mkLScal_lin _ _ _ _ E). assumption.
+  - destruct a; try (apply (rmul_c_lin _ _ _ E La)).
+    rewrite (mkRScal_lin _ _ _ _ E). exact La.
+Qed.
+
+Lemma mkComp_lin fn a b o : mkComp fn a b = Ok o -> olin o = olin a && olin b.
+Proof. unfold mkComp. destruct (sp_eqb _ _); intros E; inversion E; reflexivity. Qed.
+Lemma mkSum_lin fn a b o : mkSum fn a b = Ok o -> olin o = olin a && olin b.
+Proof.
+  unfold mkSum. destruct (sp_eqb (oran a) (oran b)); cbn [negb]; [|discriminate].
+  destruct (sp_eqb (odom a) (odom b)); cbn [negb]; [|discriminate]. intros E; inversion E; reflexivity.
+Qed.
+Lemma mul_op_lin a b o : mul_op a b = Ok o -> olin o = olin a && olin b.
+Proof. unfold mul_op, mkFComp. destruct (ofunc a); apply mkComp_lin. Qed.
+Lemma add_op_lin a b o : add_op a b = Ok o -> olin o = olin a && olin b.
+Proof.
+  unfold add_op, mkFSum. destruct (subclass_radd _ _).
+  - intros E. rewrite (mkSum_lin _ _ _ _ E). apply andb_comm.
+  - destruct (ofunc a && ofunc b) eqn:F.
+    + apply andb_true_iff in F as [-> ->]. cbn. apply mkSum_lin.
+    + apply mkSum_lin.
+Qed.
+Lemma pow_loop_lin k self op o : pow_loop k self op = Ok o -> olin self = true -> olin op = true ->
+  olin o = true.
+Proof.
+  revert op o; induction k as [|k IH]; intros op o E Ls Lo; cbn [pow_loop] in E.
+  - inversion E; subst; assumption.
+  - unfold bind in E. destruct (mkComp false self op) as [op'|] eqn:M; [|discriminate].
+    apply (IH op' o E Ls). rewrite (mkComp_lin _ _ _ _ M), Ls, Lo. reflexivity.
+Qed.
+
+(* expressions without `A * v` for a scalar-valued A (see flag_complete_refuted) *)
+Fixpoint no_sf_rvec (s : sexpr) : Prop :=
+  match s with
+  | SLeaf _ | SConst _ _ | SZero _ => True
+  | SAdd a b | SSub a b | SMul a b | SPtw a b => no_sf_rvec a /\ no_sf_rvec b
+  | SMulV a _ => sran a <> SF /\ no_sf_rvec a
+  | SNeg a | SPow a _ | SAddV a _ | SVAdd _ a | SSubV a _ | SVSub _ a | SVMul _ a
+  | SAddC a _ | SCAdd _ a | SSubC a _ | SCSub _ a | SMulC a _ | SCMul _ a | SDivC a _ => no_sf_rvec a
+  end.
+
+Theorem flag_complete_partial : forall s o, sleaves_ok s -> build s = Ok o -> no_sf_rvec s ->
+  slin s = true -> olin o = true.
+Proof.
+  induction s as [l|d c|d|a IHa b IHb|a IHa b IHb|a IHa b IHb|a IHa|a IHa n|a IHa v|v a IHa|a IHa v
+                 |v a IHa|a IHa v|v a IHa|a IHa c|c a IHa|a IHa c|c a IHa|a IHa c|c a IHa|a IHa c
+                 |a IHa b IHb];
+    intros o L E NF SL; cbn [build] in E; cbn [sleaves_ok] in L; cbn [no_sf_rvec] in NF;
+    cbn [slin] in SL; try discriminate.
+  - inversion E; subst; exact SL.
+  - inversion E; subst; exact SL.
+  - inversion E; subst; reflexivity.
+  - destruct L as [La Lb], NF as [Na Nb]. apply andb_true_iff in SL as [Sa Sb]. unbind E.
+    rewrite (add_op_lin _ _ _ E), (IHa _ La eq_refl Na Sa), (IHb _ Lb eq_refl Nb Sb). reflexivity.
+  - destruct L as [La Lb], NF as [Na Nb]. apply andb_true_iff in SL as [Sa Sb]. unbind E.
+    rewrite (add_op_lin _ _ _ E), (IHa _ La eq_refl Na Sa),
+      (rmul_c_lin _ _ _ B1 (IHb _ Lb eq_refl Nb Sb)). reflexivity.
+  - destruct L as [La Lb], NF as [Na Nb]. apply andb_true_iff in SL as [Sa Sb]. unbind E.
+    rewrite (mul_op_lin _ _ _ E), (IHa _ La eq_refl Na Sa), (IHb _ Lb eq_refl Nb Sb). reflexivity.
+  - unbind E. apply (rmul_c_lin _ _ _ E (IHa _ L eq_refl NF SL)).
+  - unbind E. unfold pow_op in E. destruct (n <=? 0)%Z; [discriminate|].
+    pose proof (IHa _ L eq_refl NF SL) as Lo. apply (pow_loop_lin _ _ _ _ E Lo Lo).
+  - destruct NF as [NR Na]. unbind E. destruct (build_sem _ _ L B) as (Wa & Da & Ra & _).
+    unfold mul_v in E. destruct (in_sp v (odom o0)); [|discriminate]. inversion E; subst o. cbn [olin].
+    destruct (ofunc o0) eqn:F.
+    + exfalso. apply NR. rewrite <- Ra. apply func_ran; assumption.
+    + apply (IHa _ L eq_refl Na SL).
+  - unbind E. unfold rmul_v in E. pose proof (IHa _ L eq_refl NF SL) as Lo.
+    destruct (in_sp v (oran o0)); [inversion E; subst; exact Lo|].
+    destruct (oran o0); [discriminate|]. inversion E; subst; exact Lo.
+  - unbind E. destruct (build_sem _ _ L B) as (Wa & _).
+    apply (mul_c_lin _ _ _ Wa E (IHa _ L eq_refl NF SL)).
+  - unbind E. apply (rmul_c_lin _ _ _ E (IHa _ L eq_refl NF SL)).
+  - unbind E. destruct (c =? nzero); [discriminate|]. destruct (build_sem _ _ L B) as (Wa & _).
+    apply (mul_c_lin _ _ _ Wa E (IHa _ L eq_refl NF SL)).
+Qed.
+
+(* ------------------------------------------------------------------ *)
 (* the concrete pool of C04/Model.v meets the leaf premise (so it is satisfiable, and the
    theorems hold without any leaf premise for expressions over the pool) *)
 Lemma dot_vscal_r c (r x : vec) : dot r (vscal c x) = c * dot r x.
@@ -539,6 +686,19 @@ Qed.
 Lemma mvec_vscal c (m : list vec) (x : vec) : mvec m (vscal c x) = vscal c (mvec m x).
 Proof.
   unfold mvec, vscal at 2. rewrite map_map. apply map_ext. intros r. apply dot_vscal_r.
+Qed.
+
+Lemma dot_vadd_r (r x y : vec) : length x = length y -> dot r (vadd x y) = dot r x + dot r y.
+Proof.
+  revert x y; induction r as [|a r IH]; intros [|b x] [|c y] E; cbn [length] in E; try discriminate;
+    unfold dot, vmul, vadd in *; cbn [vmap2 sumf]; try ring.
+  rewrite IH by congruence. ring.
+Qed.
+Lemma mvec_vadd (m : list vec) (x y : vec) : length x = length y ->
+  mvec m (vadd x y) = vadd (mvec m x) (mvec m y).
+Proof.
+  intros E. induction m as [|r m IH]; [reflexivity|].
+  unfold mvec, vadd in *. cbn [map vmap2]. rewrite IH. f_equal. apply dot_vadd_r; assumption.
 Qed.
 
 Inductive is_pool : leaf -> Prop :=
@@ -561,13 +721,17 @@ Proof.
     try (eexists; reflexivity); try discriminate; try reflexivity; try (intros; reflexivity).
   - intros x _. unfold mvec. apply map_length.
   - intros _ c x _. apply mvec_vscal.
+  - intros _ x y Hx Hy. apply mvec_vadd. congruence.
   - intros x _. unfold vadd, mvec. rewrite vmap2_length, map_length, H. apply Nat.min_id.
   - intros x Hx. unfold vadd, vmul. rewrite !vmap2_length, Hx, H. rewrite !Nat.min_id. reflexivity.
   - intros x Hx. unfold vmul. rewrite !vmap2_length, Hx. rewrite !Nat.min_id. reflexivity.
   - intros x Hx. rewrite map_length. assumption.
   - intros _ c x _. cbn [vscal map]. f_equal. apply dot_vscal_r.
+  - intros _ x y Hx Hy. cbn [vadd vmap2]. f_equal. apply dot_vadd_r. congruence.
   - intros _ c x _. cbn [vscal map]. f_equal. apply dot_vscal_r.
+  - intros _ x y Hx Hy. cbn [vadd vmap2]. f_equal. apply dot_vadd_r. congruence.
 Qed.
+
 
 Fixpoint sleaves_pool (s : sexpr) : Prop :=
   match s with
